@@ -16,7 +16,9 @@ def gen_populations(rng, thorough):
                 b"\n\n\n", b".\n", b"bare\rcr\n\r\n", b"A: b\nC: d\n\n" + b"line\n" * 30, b"\xff\x00bin\n", b"a\n.hidden tail", b"\n.", b".", b"H: v\n\n.\n.x"]
     for _ in range(12):
         contents.append(b"".join(rng.choice([b".", b"\n", b"x", b"..", b"\n.", b"h: v\n", b"\r", b"\n\n"]) for _ in range(rng.randint(0, 9))))
-    pops = [[]]
+    pops = [[], [dict(sub="cur", name="1700000000.1.host:2,S", content=b"A: b\nC: d\n\n" + b"line\n" * 30, unreadable=False),
+                 dict(sub="new", name="1700000001.2.host", content=b"Subject: a\n\nbody\n", unreadable=False),
+                 dict(sub="cur", name="1700000002.3.host:2,", content=b"X: y\n\nl1\nl2\nl3\nl4\n", unreadable=False)]]
     for _ in range(25 if thorough else 8):
         n = rng.randint(1, 5)
         pop = []
@@ -198,6 +200,29 @@ def main():
             fails.append((key, obj, len(raw_lines) * 100 + len(msgs)))
         if vlib.unhx(mo) != out[6:] and not (vlib.unhx(mo) == out[len(b"+OK \r\n"):]):
             mism.append(dict(obj, model_output=vlib.unhx(mo).decode("latin1")[:600]))
+    # ---------------------------------------------------------------- a file vanishes during the session: QUIT still removes the other marked messages
+    for variant in range(3):
+        pop = [dict(sub="cur", name="17000000%02d.%d.host:2,S" % (k, k), content=b"S: %d\n\nb\n" % k, unreadable=False) for k in range(4)] + \
+              [dict(sub="new", name="1700000009.9.host", content=b"N: 9\n\nnew\n", unreadable=False)]
+        msgs = setup(pop)
+        pr = subprocess.Popen([exe, "Maildir"], stdin=subprocess.PIPE, stdout=subprocess.PIPE, stderr=subprocess.PIPE, cwd=base, preexec_fn=lambda: (os.setgid(UID), os.setuid(UID)))
+        def rl():
+            return pr.stdout.readline()
+        g = rl()
+        marks = [[2, 3, 4], [1, 2], [2, 4]][variant]; vanish = [2, 1, 2][variant]
+        for mno in marks:
+            pr.stdin.write(b"DELE %d\r\n" % mno); pr.stdin.flush(); rl()
+        os.remove(os.path.join(md, pop[vanish - 1]["sub"], pop[vanish - 1]["name"]))
+        pr.stdin.write(b"QUIT\r\n"); pr.stdin.flush()
+        out_q = pr.stdout.read(); pr.wait(timeout=10)
+        after = listing()
+        ck.evaluated(); ck.count("vanished_file_sessions"); ck.nontrivial(("vanish", variant))
+        want_gone = {"%s/%s" % (pop[mno - 1]["sub"], pop[mno - 1]["name"]) for mno in marks}
+        still = [f for f in after if f in want_gone]
+        moved = any(f.startswith("cur/1700000009.9.host") for f in after) or "new/1700000009.9.host" in want_gone
+        if still or not moved or not out_q.rstrip().endswith(b"+OK"):
+            fails.append(("pop3:quit-gave-up-after-failed-unlink", dict(kind="history", maildir=[m["name"] for m in pop], marked=marks, removed_behind_its_back=vanish,
+                                                                     quit_output=out_q.decode("latin1")[:300], marked_but_still_there=still, new_mail_moved_to_cur=moved, maildir_after=after), variant))
     # ---------------------------------------------------------------- qmail-popup: before authentication
     popup = rb.path("qmail-popup")
     stub = os.path.join(vlib.scratch(), "checkpw.sh"); fd3out = os.path.join(vlib.scratch(), "fd3.out")
